@@ -30,7 +30,7 @@ FILES = {
     "markup/line_parser.go": ["C13", "C15", "C14"],
     "markup/parse_result.go": ["C13", "C15"],
     "markup/processors.go": ["C13", "C15"],
-    "internal/tree/parser_listener.go": ["C01", "C02", "C04", "C17", "C08", "C03"],
+    "internal/tree/parser_listener.go": ["C01", "C02", "C04", "C17", "C08", "C03", "C06"],
     "internal/tree/tree.go": ["C17", "C01", "C11", "C08"],
     "internal/tree/creator.go": ["C05", "C08", "C01"],
     "internal/tree/expression.go": ["C02", "C03", "C08"],
@@ -127,6 +127,7 @@ def main():
     ap.add_argument("--files", default="")
     ap.add_argument("--limit", type=int, default=0)
     ap.add_argument("--stride", type=int, default=1, help="take every n-th mutant")
+    ap.add_argument("--offset", type=int, default=0, help="start at this mutant (with --stride)")
     ap.add_argument("--out", default="/verif/out/mutation.jsonl")
     args = ap.parse_args()
     files = [f for f in FILES if not args.files or f in args.files.split(",")]
@@ -134,7 +135,7 @@ def main():
     for f in files:
         for m in mutants_of(f):
             work.append((f, m))
-    work = work[::args.stride]
+    work = work[args.offset::args.stride]
     if args.limit:
         work = work[:args.limit]
     print("mutants:", len(work), flush=True)
